@@ -20,7 +20,7 @@ BSIZES = (16, 17, 4096)
 LPCONVERT = True
 RULE = ("byte strings of 0..300 bytes (a few up to 3×BUF_SIZE): uniformly random bytes; random bytes over the alphabet of the formats; valid aspif / smodels / ground-text programs "
         "with one to three bytes deleted, replaced, inserted or the text truncated; NUL bytes, CR/LF mixes, 20..40 digit numbers, numbers around 2^31 and 2^32, announced lengths "
-        "larger than the rest; every text goes to all three readers (both read modes / 4 random option sets) at BUF_SIZE 16, 17, 4096, and a sample to lpconvert with all 8 flag sets; "
+        "larger than the rest; every text goes to all three readers (both read modes / 4 random option sets) at BUF_SIZE 16, 17, 4096, and a sample to lpconvert (quick: 160 inputs × 2 rotating flag sets of the 8, one buffer size each; thorough: 1500 inputs × all 8 flag sets × 2 buffer sizes); "
         "distinct = distinct byte strings; non-trivial = at least one directive call delivered by some reader")
 TRUSTED = ["g++ 12 AddressSanitizer/UndefinedBehaviorSanitizer/LeakSanitizer detect the memory errors, overflows and leaks they document"]
 ASSUMPTIONS = ["inputs containing NUL bytes are run on the implementation (sanitizers, contract) but not compared with the models: a NUL is indistinguishable from the buffer sentinel",
@@ -183,22 +183,32 @@ def evaluate(ctx, cases):
                 if ci in delivered: ctx.nontrivial(c["text"])
             ctx.sample({"text": bytes.fromhex(cases[0]["text"]).decode("latin-1")[:120]}, 2)
     # --- lpconvert with every flag set
-    nlp = {"quick": 60, "thorough": 1500}[ctx.tier]
+    nlp = {"quick": 160, "thorough": 1500}[ctx.tier]
     flagsets = [[], ["-p"], ["-f"], ["-t"], ["-p", "-f"], ["-p", "-t"], ["-f", "-t"], ["-p", "-f", "-t"]]
-    for c in cases[:nlp]:
-        data = bytes.fromhex(c["text"])
-        for fl in flagsets:
-            for B in (16, 4096):
-                try: r = subprocess.run([ctx.lpconvert[B]] + fl, input=data, capture_output=True, timeout=120)
-                except subprocess.TimeoutExpired:
-                    ctx.fail("C04:lpconvert-hang", "lpconvert %s does not terminate (BUF_SIZE=%d)" % (" ".join(fl), B), dict(c, flags=fl, B=B), {}); continue
-                ctx.dist["lpconvert rc=%d" % r.returncode] += 1
-                err = r.stderr.decode("latin-1")
-                if "exceeds maximum supported size" in err or "bad_alloc" in err: ctx.dist["allocation of an announced size refused (outside the claim)"] += 1; continue
-                if r.returncode < 0 or "Sanitizer" in err or "runtime error" in err or "LeakSanitizer" in err:
-                    ctx.fail("C04:lpconvert-crash", "lpconvert %s crashed / sanitizer report (BUF_SIZE=%d)" % (" ".join(fl), B), dict(c, flags=fl, B=B), {"rc": r.returncode, "stderr": err[-1500:]})
-                elif r.returncode != 0 and "ERROR" not in err:
-                    ctx.fail("C04:lpconvert-silent", "lpconvert %s failed without reporting an error" % " ".join(fl), dict(c, flags=fl, B=B), {"rc": r.returncode, "stderr": err[-400:]})
+    jobs = []
+    for k, c in enumerate(cases[:nlp]):
+        # quick: two of the eight flag sets and one buffer size per input, rotating (a sanitizer process start + leak check costs ~0.1 s); thorough: all 16 combinations
+        fsets = flagsets if ctx.tier == "thorough" else [flagsets[k % 8], flagsets[(k // 8 + k + 3) % 8]]
+        for fl in fsets:
+            for B in ((16, 4096) if ctx.tier == "thorough" else ((16,) if k % 2 else (4096,))): jobs.append((c, fl, B))
+    import json, os, sys
+    helper = os.path.join(os.path.dirname(os.path.dirname(os.path.abspath(__file__))), "vlib", "lprun.py")
+    hr = subprocess.run([sys.executable, helper], input=json.dumps([[[ctx.lpconvert[B]] + fl, c["text"], 300] for c, fl, B in jobs]).encode(), capture_output=True,
+                        env=dict(os.environ, **runner.ASAN_ENV))       # same allocation cap as the harness: sizes the input announces are refused, not zero-filled
+    if hr.returncode != 0: raise RuntimeError("lprun helper failed: " + hr.stderr.decode()[-500:])
+    class _R:
+        def __init__(self, x): self.returncode, self.stderr = x[0], x[1].encode("latin-1")
+    results = [None if x is None else _R(x) for x in json.loads(hr.stdout)]
+    for (c, fl, B), r in zip(jobs, results):
+        if r is None:
+            ctx.fail("C04:lpconvert-hang", "lpconvert %s does not terminate (BUF_SIZE=%d)" % (" ".join(fl), B), dict(c, flags=fl, B=B), {}); continue
+        ctx.dist["lpconvert rc=%d" % r.returncode] += 1
+        err = r.stderr.decode("latin-1")
+        if "exceeds maximum supported size" in err or "bad_alloc" in err: ctx.dist["allocation of an announced size refused (outside the claim)"] += 1; continue
+        if r.returncode < 0 or "Sanitizer" in err or "runtime error" in err or "LeakSanitizer" in err:
+            ctx.fail("C04:lpconvert-crash", "lpconvert %s crashed / sanitizer report (BUF_SIZE=%d)" % (" ".join(fl), B), dict(c, flags=fl, B=B), {"rc": r.returncode, "stderr": err[-1500:]})
+        elif r.returncode != 0 and "ERROR" not in err:
+            ctx.fail("C04:lpconvert-silent", "lpconvert %s failed without reporting an error" % " ".join(fl), dict(c, flags=fl, B=B), {"rc": r.returncode, "stderr": err[-400:]})
 
 def shrink_candidates(c):
     t = bytes.fromhex(c["text"])
